@@ -76,6 +76,8 @@ func main() {
 		cmdMemIO(os.Args[2:])
 	case "memioreplay":
 		cmdMemIOReplay(os.Args[2:])
+	case "zexdump":
+		cmdZexDump(os.Args[2:])
 	case "play":
 		cmdPlay(os.Args[2:])
 	case "sweep16":
